@@ -109,8 +109,10 @@ def synthetic_cases(ctx, rng, quick):
                        ([(11, 'id')], [(9999, 'u'), (58, 't')])]
             if extra_group:
                 layouts.append(([(11, 'id')], [(78, '1'), (79, 'acc'), (80, '5'), (38, '9')]))
+                # another group directly BEFORE the group under test (two adjacent top-level groups)
+                layouts.append(([(11, 'id'), (78, '2'), (79, 'acc'), (80, '5'), (79, 'acd'), (80, '6')], [(55, 'IBM')]))
             big = len(inst) > 2 or any(len(x['inst']) > 2 for e in inst for x in e)
-            for before, after in (layouts[1:2] if big else layouts):
+            for before, after in (layouts[1:2] + layouts[-1:] if big else layouts):
                 raw = fixgen.build(hdr + before + g + after, begin='FIX.4.4')
                 plain_after = [[t, v] for (t, v) in after if t not in (78, 79, 80)]
                 for d in ('', path):
